@@ -44,6 +44,19 @@ def kind_of(o):
     return o[0] if isinstance(o, list) else o
 
 
+WS_SEPS = ['sp', 'sp2', 'sp5', 'tab', 'lf', 'crlf', 'lf_indent', 'mix', 'cr_ref', 'tab_ref']
+WS_EDGE = ['', '', 'sp', 'tab', 'lf', 'crlf', 'lf_indent', 'mix']
+
+
+def gen_ws(rng, ntok):
+    """how the action URIs of a Filter are separated in the request text: None = one blank, the library client sends it;
+    otherwise a raw request with every kind of XML white space between / before / after the URIs"""
+    if ntok == 0 or rng.random() < 0.6:
+        return None
+    return {'lead': rng.choice(WS_EDGE), 'seps': [rng.choice(WS_SEPS) for _ in range(ntok - 1)],
+            'trail': rng.choice(WS_EDGE)}
+
+
 def gen_outs(rng, nsinks, pfail):
     return [rng.choice(FAIL_KINDS) if rng.random() < pfail else 'ok' for _ in range(nsinks)]
 BAD = 'RSub (-1) (-1)'
@@ -117,6 +130,7 @@ def gen_case(rng, actions, max_ops, stream):
              'end': rng.choice([None, None] + list(range(c['nsinks']))), 'cons_ref': rng.random() < 0.4}
         if not q['schema_ok']:       # how the request is broken: all variants must be refused without any effect
             q['bad'] = rng.choice(['delivery', 'days', 'negative', 'datetime', 'garbage'])
+        q['ws'] = gen_ws(rng, len(q['filter'] or []))
         ops.append(['sub', q])
         if q['schema_ok'] and (q['dialect_ok'] or c['async']) and q['filter'] is not None:
             e = q['expires']
@@ -219,6 +233,7 @@ def gen_fan_case(rng, actions, max_ops):
         e = rng.choice([None, rng.randint(4, 30), rng.randint(10, 60), rng.randint(40, 200)])
         q = {'schema_ok': True, 'dialect_ok': True, 'filter': f, 'expires': e, 'notify': rng.randrange(c['nsinks']),
              'end': rng.choice([None, None] + list(range(c['nsinks']))), 'cons_ref': rng.random() < 0.4}
+        q['ws'] = gen_ws(rng, len(f))
         subs.append({'t0': now, 'dur': eff_maxd if e is None else min(e, eff_maxd), 'unsub': False,
                      'acts': {t[1] for t in f}, 'sink': q['notify'], 'fails': 0})
         return ['sub', q]
@@ -1041,6 +1056,13 @@ def histogram(cases, traces, actions, hist):
                 hist['report_to_nobody'] += 1
             if op[0] == 'hk':
                 hist['hk_passes'] += 1
+            if op[0] == 'sub' and op[1].get('ws'):
+                w = op[1]['ws']
+                hist['filter_raw_white_space'] += 1
+                for x in w['seps']:
+                    hist['filter_sep_' + x] += 1
+                hist['filter_lead_' + (w['lead'] or 'none')] += 1
+                hist['filter_trail_' + (w['trail'] or 'none')] += 1
             if op[0] == 'ireport':
                 mode = 'async' if c['async'] else 'sync'
                 hist[f'invalid_report_{mode}_{e["resp"][0]}'] += 1
